@@ -8,7 +8,7 @@ K_ProtoOrder == <<"WAPProtocol", "GeminiProtocol", "HTTPProtocol", "HTTPSProtoco
                   "GopherPlusProtocol", "SecureGopherPlusProtocol", "GopherProtocol", "SecureGopherProtocol">>
 K_Tokens == {"a", " ", "%", "?", "#", "|", "+", "&", "\"", "^", ":", "..", "%41", "wap", "GEMINI-QUERY"}
 K_Shapes == {"wapiti", "a b 1", "GEMINI-QUERYx", "URL:a"}
-K_InnerTokens == {"a", " ", "%", "?", "|", "^", "wap", "URL:a", "a b 1", "x:y"}
+K_InnerTokens == {"a", " ", "%", "?", "|", "^", "wap", "URL:a", "a b 1", "x:y", "a\rb"}
 K_Kinds2 == {"file"}
 K_DeepNames == {"{{"}
 K_Views == {"G", "GP", "GD", "SG", "H", "HS", "W", "M", "S"}
